@@ -4,7 +4,7 @@ import RaftGen.Props.C15PipeSys
 /-!
 # Observations on the pipelining skeleton that are NOT obligations
 
-Existence statements ("the skeleton has a state in which …"). They document a defect or a modelling artefact; they are not
+Existence statements ("the skeleton has a state in which …"). They document a defect; they are not
 part of any check (`lake build RaftGen` does not build this file: it is not imported by `RaftGen.lean`), because a statement
 that a defect EXISTS must not turn into an alarm when the defect is repaired. Build by hand: `lake build RaftGen.Notes.PipeObservations`.
 -/
@@ -16,12 +16,6 @@ open Raft.Chan
     closed: a reachable panicked state with the writer just after that send -/
 theorem recover_path_sends_on_closed :
     ∃ s, Reachable pipeSysP s ∧ (!noPanic s && memNat (s.pc writer) Gen.pipeWriterP_at_recoverSend) = true :=
-  (checkAllAny_sound (y := pipeSysP) (fuel := 3000) (P := fun _ => true) (by decide +kernel)).2
-
-/-- MODEL ARTEFACT on the repaired code (real on the code as found: finding F20): a reachable state of the skeleton with the
-    reader returned and the writer at `writeAppendEntriesReq` -/
-theorem skeleton_has_reader_returned_with_writer_running :
-    ∃ s, Reachable pipeSys s ∧ writerOutlivesReader s = true :=
-  (checkAllAny_sound (y := pipeSys) (fuel := 3000) (P := fun _ => true) (by decide +kernel)).2
+  (checkAllAny_sound (y := pipeSysP) (fuel := 3500) (P := fun _ => true) (by decide +kernel)).2
 
 end Raft.C15Pipe
